@@ -516,6 +516,18 @@ func child(index int, resPath string) {
 					}
 				}
 				w := pr.Intn(len(fields))
+				if pr.Chance(0.5) {
+					// prefer an End field when there is one (Start fields are far more numerous in Running images)
+					var ends []int
+					for i, n := range names {
+						if strings.HasSuffix(n, ".End") {
+							ends = append(ends, i)
+						}
+					}
+					if len(ends) > 0 {
+						w = ends[pr.Intn(len(ends))]
+					}
+				}
 				*fields[w] = target
 				b.desc.Witness = names[w]
 			}
